@@ -5,6 +5,7 @@ construct outside the subset (a broken tie, reported by ./check)."""
 import argparse, os, sys
 from .translate import Translator, Unsupported
 from .specs import MODULES
+from .tables import TABLES
 
 def main():
     ap = argparse.ArgumentParser()
@@ -14,14 +15,20 @@ def main():
     a = ap.parse_args()
     sys.path.insert(0, a.repo)
     rc = 0
-    for name, (specs, comment) in MODULES.items():
+    jobs = [(name, (lambda specs=specs, comment=comment, name=name: Translator(a.repo, specs).module(name, specs, comment)))
+            for name, (specs, comment) in MODULES.items()]
+    jobs += [(name, (lambda fn=fn: fn(a.repo))) for name, fn in TABLES.items()]
+    for name, job in jobs:
         if a.only and name != a.only:
             continue
         try:
-            tr = Translator(a.repo, specs)
-            text = tr.module(name, specs, comment)
+            text = job()
         except Unsupported as u:
             print(str(u))
+            rc = 3
+            continue
+        except Exception as e:  # the live code could not be executed/introspected: a broken tie
+            print(f"UNSUPPORTED {name}: extractor raised {type(e).__name__}: {e}")
             rc = 3
             continue
         path = os.path.join(a.out, f"{name}.lean")
